@@ -312,6 +312,12 @@ def build(cfg):
         b.attenuator = attenuator(bc['attenuator'])
         b.integrator = NumericalIntegrator(step=bc['integrator_step'])
         b.models = [beam_model(m) for m in bc['models']]
+    # persistent objects a history can detach and later re-attach (the SAME object comes back)
+    L.pm_pool = [plasma_model(m) for m in cfg.get('pm_pool', [])]
+    L.bm_pool = [beam_model(m) for m in cfg.get('bm_pool', [])]
+    L.att_pool = [attenuator(a) for a in (bc or {}).get('att_pool', [])]
+    if bc and bc.get('att_ref') is not None:
+        L.beam.attenuator = L.att_pool[bc['att_ref']]
     lc = cfg.get('laser')
     L.laser = None
     if lc:
